@@ -252,6 +252,27 @@ def record_eval(root, judge, desc, node_level=False):
     return {"tree": tree, "obs": obs, "raised": raised, "intact": bool(intact), "shape": bool(shape), "judge": judge, "desc": desc}
 
 
+def unambiguous(root):
+    """The recommendations speak of 'the' abstract, 'the' physical ... : where an element that they single out occurs more
+    than once the expected warnings depend on which one counts (not specified); everything else is order-independent."""
+    single = {"dataset": ("abstract", "coverage", "intellectualRights"), "dataTable": ("physical", "numberOfRecords"),
+              "physical": ("size", "authentication", "dataFormat", "recordDelimiter"), "dataFormat": ("textFormat",), "textFormat": ("recordDelimiter",)}
+    for n in walk(root):
+        for x in single.get(n.name, ()):
+            if len(n.find_all_children(x)) > 1:
+                return False
+    return True
+
+
+def shuffle_children(root, rnd):
+    """Order-only mutation: shuffle the child lists the recommendations look into (the tree is then usually invalid, but
+    it is still built from known names and what the recommendations imply for it does not depend on the order)."""
+    for n in walk(root):
+        if n.name in ("dataset", "dataTable", "physical", "textFormat", "dataFormat", "individualName", "creator", "contact", "associatedParty",
+                      "metadataProvider", "personnel", "otherEntity", "keywordSet", "methodStep") and len(n.children) > 1:
+            rnd.shuffle(n.children)
+
+
 def w_profiles(idx):
     from metapype.eml import validate
     evs, invalid = [], 0
@@ -272,6 +293,12 @@ def w_profiles(idx):
             e.add_child(root)
             root = e
         evs.append(record_eval(root, "warnings", {"profile": p}))
+        if i % 2 == 0:
+            Node.store.clear()
+            r2 = build(p, t, i)
+            shuffle_children(r2, random.Random(i))
+            if unambiguous(r2):
+                evs.append(record_eval(r2, "warnings", {"profile": p, "variant": "children shuffled"}, node_level=True))
     return evs, invalid
 
 
@@ -295,6 +322,17 @@ def w_random(seeds):
                                            "add-misplaced-child", "remove-attr", "corrupt-attr"])
         if all(n.name in t.node_map for n in walk(root)):
             evs.append(record_eval(root, "totality", {"base": "mutated", "element": el, "seed": seed}, node_level=True))
+        # order / omission mutations keep the expected warnings well defined: judged in full
+        if not errs:
+            Node.store.clear()
+            g2 = tables.TreeGen(t, seed, max_depth=5, breadth=g.breadth, text=g.text)
+            g2.rnd = random.Random(seed)
+            r3, e3 = tables.TreeGen(t, seed, max_depth=5, breadth=g.breadth, text=g.text).gen_valid(el)
+            for _ in range(3):
+                valtrace.mutate(r3, rnd, t, ["swap", "swap", "drop", "clear-content"])
+            shuffle_children(r3, rnd)
+            if unambiguous(r3) and all(n.name in t.node_map for n in walk(r3)):
+                evs.append(record_eval(r3, "warnings", {"base": "generated-valid then order/omission mutations", "element": el, "seed": seed}, node_level=True))
     return evs
 
 
